@@ -36,6 +36,7 @@ struct ThreadRec {
   long prio = 0;
   int open_buf = -1;   // monitor: buffer this (worker) thread is between access and next sched point on
   const char *stack_lo = nullptr, *stack_hi = nullptr;   // 'tsi': bounds of this thread's own stack
+  int hot_trail = 0;   // 'tsi': number of following accesses of this thread that are scheduling points whatever they touch
 };
 
 struct BufMon {
@@ -87,7 +88,8 @@ static void note_stack(ThreadRec *t) {
 
 // ---- 'tsi' builds: the repository is compiled with -fsanitize=thread but linked against the callbacks below instead of
 // libtsan.  Every instrumented load/store of repository code arrives here BEFORE it happens (DESIGN.md 10.16).
-struct MemShadow { uint8_t first = 255, wtid = 255, rtid = 255, flags = 0; uint32_t wclk = 0, rclk = 0; };
+struct MemShadow { uint8_t first = 255, wtid = 255, rtid = 255, flags = 0, ro_reads = 0; uint32_t wclk = 0, rclk = 0; };
+extern "C" char __data_start, _end;   // writable globals of the executable: [.data, .bss)
 static std::unordered_map<uintptr_t, MemShadow> g_shadow;
 static thread_local bool g_in_mem = false;
 static thread_local bool tl_sim = false;   // this real thread is a simulated thread that has been started and has not exited yet
@@ -586,6 +588,7 @@ void mem_access(const void *p, unsigned size, bool write) {
   Busy busy_guard;
   S.res.mem_accesses++;
   bool hot = false;
+  bool global = (const char *)p >= &__data_start && (const char *)p < &_end;
   bool watched = S.buf_base && g_sizeof_iobuffer && (const char *)p >= S.buf_base && (const char *)p < S.buf_base + S.nbuf * g_sizeof_iobuffer;
   uintptr_t a0 = (uintptr_t)p >> 3, a1 = ((uintptr_t)p + (size ? size - 1 : 0)) >> 3;
   for (uintptr_t g = a0; g <= a1 && g < a0 + 4; g++) {
@@ -594,6 +597,13 @@ void mem_access(const void *p, unsigned size, bool write) {
     else if (sh.first != me->id) sh.flags |= 2;
     if (write) sh.flags |= 1;
     if ((sh.flags & 3) == 3) hot = true;
+    // writable globals (file-scope / static state: lazily built tables, flags, counters) are potentially shared from
+    // their first access on - the interesting interleaving of a racy initialisation is the one BEFORE a second thread
+    // has touched them; a global that is only ever read is left alone after a few reads
+    if (global && !hot) {
+      if (sh.flags & 1) hot = true;
+      else if (sh.ro_reads < 6) { sh.ro_reads++; hot = true; }
+    }
     if (watched) {
       // happens-before on the chunk buffers' own memory, independent of where the hooks sit
       bool race = false;
@@ -609,6 +619,11 @@ void mem_access(const void *p, unsigned size, bool write) {
     if (write) { sh.wtid = (uint8_t)me->id; sh.wclk = me->vc[me->id]; }
     else { sh.rtid = (uint8_t)me->id; sh.rclk = me->vc[me->id]; }
   }
+  // after a store to hot memory (typically: publishing a pointer or a "ready" flag) the same thread's next accesses are
+  // scheduling points whatever they touch: the memory it goes on to initialise is still private, but the other threads
+  // can already see the publication
+  if (hot && write) me->hot_trail = 40;
+  else if (!hot && me->hot_trail > 0) { me->hot_trail--; hot = true; }
   if (hot) {
     // memory that is written during this operation and touched by more than one thread: a scheduling point right
     // before the access, so that interleavings BETWEEN the loads and stores of unsynchronised code are explored
